@@ -74,11 +74,17 @@ func genProofDoc(rng *rand.Rand) (map[string]any, []docLeaf) {
 	var leaves []docLeaf
 	u64 := func(path string) any {
 		v := rng.Uint64()
-		switch rng.Intn(12) {
+		switch rng.Intn(16) {
 		case 0:
 			v = ^uint64(0) // 2^64 - 1
 		case 1:
 			v = 0
+		case 2:
+			v = bigP.Uint64() // the Goldilocks prime itself: a 64-bit value that is not a canonical element must arrive unchanged
+		case 3:
+			v = bigP.Uint64() + 1 + uint64(rng.Intn(1<<20))
+		case 4:
+			v = bigP.Uint64() - 1
 		}
 		leaves = append(leaves, docLeaf{path, new(big.Int).SetUint64(v).String(), "u64"})
 		return json.Number(new(big.Int).SetUint64(v).String())
@@ -89,6 +95,9 @@ func genProofDoc(rng *rand.Rand) (map[string]any, []docLeaf) {
 			v = new(big.Int).Sub(bigR, one)
 		}
 		leaves = append(leaves, docLeaf{path, v.String(), "hash"})
+		if rng.Intn(10) == 0 {
+			return "00" + v.String() // a decimal string with leading zeros is the same number
+		}
 		return v.String()
 	}
 	list := func(n int, path string, f func(p string) any) []any {
@@ -320,6 +329,47 @@ func c19(raw json.RawMessage, resp *drv.Response) error {
 					fmt.Sprintf("document leaf %s set to %s is neither refused at reading nor at witness creation; the assignment holds %q", dl.path, vb, got), map[string]any{"leaf": dl.path, "variant": string(vb)})
 			} else if len(resp.Samples) < 5 {
 				resp.Sample(map[string]any{"leaf": dl.path, "malformed": string(vb), "refused_at": stage})
+			}
+		}
+		// every malformed variant at one leaf of every class (the seeded loop above may never pair a rare class with a rare variant)
+		if d == 0 {
+			seenCls := map[string]bool{}
+			for _, dl := range leaves {
+				ap, _, _ := mapPath(rules.Proof, dl.path)
+				cls := classOf(ap)
+				if seenCls[cls] {
+					continue
+				}
+				seenCls[cls] = true
+				var variants []any
+				if dl.ty == "u64" {
+					variants = []any{"abc", json.Number("-1"), json.Number("18446744073709551616"), json.Number("1.5"), "12"}
+				} else {
+					variants = []any{"abc", "0x1f", "0b101", "0o17", "1_000", " 12", "", "1e3", json.Number("12")}
+				}
+				for _, v := range variants {
+					var doc2 map[string]any
+					bb, _ := json.Marshal(doc)
+					dec := json.NewDecoder(strings.NewReader(string(bb)))
+					dec.UseNumber()
+					dec.Decode(&doc2)
+					if !setAt(doc2, dl.path, v) {
+						return fmt.Errorf("cannot set %s", dl.path)
+					}
+					p2path := fmt.Sprintf("%s-corr2.json", tmp)
+					writeJSON(p2path, doc2)
+					vb, _ := json.Marshal(v)
+					resp.Count(fmt.Sprintf("corrupt-class/%s/%s", cls, vb), false)
+					p2, refused := readProof(p2path)
+					if refused == "" {
+						refused = witnessRefuses(p2, goodVD)
+					}
+					if refused == "" {
+						resp.Violate(fmt.Sprintf("c19/malformed/accepted type=%s variant=%s", dl.ty, strings.Trim(string(vb), `"`)),
+							fmt.Sprintf("document leaf %s (class %s) set to %s is neither refused at reading nor at witness creation", dl.path, cls, vb), map[string]any{"leaf": dl.path, "variant": string(vb)})
+					}
+					os.Remove(p2path)
+				}
 			}
 		}
 		// two documents that differ in one verified field give different assignments - also when the second is read after the first in
